@@ -1,5 +1,196 @@
-//! C11 - monitor not written yet.
+//! C11 - each recognised distinfo line lands on its file; other lines change
+//! nothing.
+//!
+//! Refuting events: after `from_bytes(text)` the per-kind name order, a
+//! file's checksum list (algorithm, hash, line order), size or kind differs
+//! from the model; a must-ignore line created, removed or altered anything; a
+//! well-formed line was dropped; `EntryType::from(name)` differs from the
+//! classification rule.
+//!
+//! Oracle: by construction (`gen::distinfo::c11_doc` updates the model with
+//! the well-formed lines only).  Known finding K2 (`path-alias-merge`) is
+//! raised only in the alias workload below.
 
-use crate::fw::Cx;
+use crate::fw::{known, show, CaseResult, Cx, Ev};
+use crate::gen::distinfo as gd;
+use crate::oracle::distinfo::{
+    classify, compare_structure, sum_line, DocModel, FileModel, Kind, ALGS,
+};
+use crate::rng::hash_strs;
+use pkgsrc::distinfo::{Distinfo, EntryType};
+use std::ffi::OsStr;
+use std::os::unix::ffi::OsStrExt;
+use std::path::Path;
 
-pub fn run(_cx: &mut Cx) {}
+pub const K2: &str = "path-alias-merge";
+
+fn clip(b: &[u8]) -> String {
+    if b.len() > 1000 {
+        format!("{}...[{} bytes]", show(&b[..1000]), b.len())
+    } else {
+        show(b)
+    }
+}
+
+fn interleaved_doc(ev: &mut Ev, d: &gd::C11Doc) -> CaseResult {
+    ev.count("docs/interleaved-workload");
+    for c in &d.classes {
+        ev.count(&format!("line/{}", c.name()));
+    }
+    ev.count(if d.interleaved { "interleave/files-interleaved" } else { "interleave/files-grouped" });
+    ev.count(&format!("files-per-doc/{}", d.nfiles));
+    for f in d.model.files() {
+        for c in gd::danger_classes(&f.name) {
+            ev.count(&format!("name-byte/{c}"));
+        }
+        if f.kind == Kind::Patch && f.size.is_some() {
+            ev.count("model/patch-with-size");
+        }
+        if f.sums.is_empty() {
+            ev.count("model/size-only-file");
+        }
+    }
+    let di = Distinfo::from_bytes(&d.text);
+    ev.evals(compare_structure(&di, &d.model, true)?);
+    if d.nfiles >= 2 && d.interleaved && d.ignored >= 1 {
+        ev.nontrivial(hash_strs(&[&d.text]));
+    }
+    Ok(())
+}
+
+fn lib_kind(t: EntryType) -> Kind {
+    match t {
+        EntryType::Distfile => Kind::Dist,
+        EntryType::Patchfile => Kind::Patch,
+    }
+}
+
+/// One name: `EntryType::from`, and where a line for it lands.
+fn classification(ev: &mut Ev, name: &[u8], want: Kind, hash: &str) -> CaseResult {
+    let got = lib_kind(EntryType::from(OsStr::from_bytes(name)));
+    ev.eval();
+    if got != want {
+        return Err(format!(
+            "EntryType::from({:?}) is {}, the rule says {}",
+            show(name),
+            got.name(),
+            want.name()
+        )
+        .into());
+    }
+    let mut m = DocModel::default();
+    let f = FileModel {
+        name: name.to_vec(),
+        kind: want,
+        sums: vec![(ALGS[3], hash.to_string())],
+        size: None,
+    };
+    match want {
+        Kind::Dist => m.dist.push(f),
+        Kind::Patch => m.patch.push(f),
+    }
+    let text = sum_line(ALGS[3], name, hash);
+    let di = Distinfo::from_bytes(&text);
+    ev.evals(compare_structure(&di, &m, true)?);
+    Ok(())
+}
+
+fn alias(ev: &mut Ev, d: &gd::AliasDoc) -> CaseResult {
+    ev.count("alias/docs");
+    ev.count(&format!("alias/form/{}", d.form));
+    let di = Distinfo::from_bytes(&d.text);
+    ev.eval();
+    let sep = compare_structure(&di, &d.separate, false);
+    let Err(why) = sep else {
+        ev.count("alias/kept-separate");
+        return Ok(());
+    };
+    // K2 only if: the names differ as bytes, are equal as Path, and the
+    // observation is exactly "second name's lines appended to the first
+    // name's entry" (everything else as the statement says).
+    let a = Path::new(OsStr::from_bytes(&d.first));
+    let b = Path::new(OsStr::from_bytes(&d.second));
+    let is_alias = d.first != d.second && a == b;
+    if is_alias && compare_structure(&di, &d.merged, false).is_ok() {
+        ev.count("alias/merged");
+        return Err(known(
+            K2,
+            format!(
+                "names {:?} and {:?} share one entry: {why}",
+                show(&d.first),
+                show(&d.second)
+            ),
+        ));
+    }
+    Err(format!("alias document: {why} (and the result is not the known merge either)").into())
+}
+
+pub fn run(cx: &mut Cx) {
+    cx.default_budget();
+    for c in gd::LINE_CLASSES {
+        cx.ev.require(&format!("line/{}", c.name()));
+    }
+    for (_, _, row) in gd::CLASS_TABLE {
+        cx.ev.require(&format!("table/{row}"));
+    }
+    for (k, _) in gd::DANGER {
+        cx.ev.require(&format!("name-byte/{k}"));
+    }
+    for k in [
+        "interleave/files-interleaved",
+        "interleave/files-grouped",
+        "alias/docs",
+        "model/patch-with-size",
+        "model/size-only-file",
+    ] {
+        cx.ev.require(k);
+    }
+
+    // (a) interleaved well-formed and must-ignore lines
+    let n = cx.per_shard(200, 25_000, 400_000, 4_000_000);
+    let mut r = cx.stream("interleaved");
+    for _ in 0..n {
+        let d = gd::c11_doc(&mut r);
+        cx.check(|| format!("distinfo text {:?}", clip(&d.text)), |ev| interleaved_doc(ev, &d));
+    }
+
+    // (b) classification table: every row in every shard, then variants
+    let mut r = cx.stream("classification");
+    let mut serial = 0u32;
+    for (name, kind, row) in gd::CLASS_TABLE {
+        debug_assert_eq!(classify(name), Some(kind));
+        let h = gd::unique_hash(&mut r, ALGS[3], &mut serial);
+        cx.check(
+            || format!("classification table row {:?}", show(name)),
+            |ev| {
+                ev.count(&format!("table/{row}"));
+                classification(ev, name, kind, &h)
+            },
+        );
+    }
+    let n = cx.per_shard(40, 4_000, 60_000, 600_000);
+    for i in 0..n {
+        let row = (i as usize) % gd::CLASS_TABLE.len();
+        let v = gd::table_variant(&mut r, row);
+        let h = gd::unique_hash(&mut r, ALGS[3], &mut serial);
+        let Some((name, kind)) = v else { continue };
+        cx.check(
+            || format!("classification of {:?} (variant of table row {:?})", show(&name), show(gd::CLASS_TABLE[row].0)),
+            |ev| {
+                ev.count(&format!("table-variant/{}", kind.name()));
+                classification(ev, &name, kind, &h)
+            },
+        );
+    }
+
+    // (c) alias workload (known finding K2)
+    let n = cx.per_shard(24, 1_000, 16_000, 160_000);
+    let mut r = cx.stream("alias");
+    for _ in 0..n {
+        let d = gd::alias_doc(&mut r);
+        cx.check(
+            || format!("alias names {:?} / {:?} in {:?}", show(&d.first), show(&d.second), clip(&d.text)),
+            |ev| alias(ev, &d),
+        );
+    }
+}
